@@ -11,6 +11,7 @@ FAMILY_OF = {
     'C12': 'fam_cp',
     'C13': 'fam_csv',
     'C20': 'fam_print',
+    'C19': 'fam_render',
     'C02': 'fam_sched', 'C03': 'fam_sched', 'C04': 'fam_sched', 'C06': 'fam_sched', 'C07': 'fam_sched', 'C08': 'fam_sched',
     'C09': 'fam_sched', 'C14': 'fam_sched',
     'C01': 'fam_graph', 'C05': 'fam_graph', 'C11': 'fam_graph', 'C15': 'fam_graph', 'C16': 'fam_graph',
